@@ -1626,7 +1626,8 @@ class BaseLoss(object):
         dealing with estimating the initial value as well
         """
         x0 = ode_utils.check_array_type(x0)
-        self._x0 = np.copy(x0)
+        # held at least as floats: inferred initial values are written into it
+        self._x0 = np.array(x0, dtype=np.result_type(x0.dtype, np.float64))
 
     def _setLossType(self):
         """
